@@ -4,6 +4,7 @@ import (
 	"fmt"
 	"go/token"
 	"go/types"
+	"os"
 	"sort"
 	"strings"
 	"sync"
@@ -461,7 +462,7 @@ func (e *Explorer) NewWorker() (*Worker, error) {
 		cfg.MaxPaths = 200_000
 	}
 	if cfg.SolverTimeout == 0 {
-		cfg.SolverTimeout = 60_000
+		cfg.SolverTimeout = 20_000
 	}
 	if cfg.Z3 == "" {
 		cfg.Z3 = "z3"
@@ -469,6 +470,11 @@ func (e *Explorer) NewWorker() (*Worker, error) {
 	s, err := smt.NewZ3(cfg.Z3, cfg.SolverTimeout)
 	if err != nil {
 		return nil, err
+	}
+	if p := os.Getenv("SYMGO_SMTLOG"); p != "" {
+		if f, err := os.OpenFile(p, os.O_CREATE|os.O_WRONLY|os.O_APPEND, 0o644); err == nil {
+			s.Log = f
+		}
 	}
 	i := &interpreter{
 		prog:     e.Prog,
@@ -554,7 +560,7 @@ func (w *Worker) Explore(fn *ssa.Function) *Report {
 	rep.Solver = smt.Stats{
 		Queries: after.Queries - before.Queries, Sat: after.Sat - before.Sat, Unsat: after.Unsat - before.Unsat,
 		Unknown: after.Unknown - before.Unknown, Errors: after.Errors - before.Errors, Restarts: after.Restarts - before.Restarts,
-		Seconds: after.Seconds - before.Seconds, MaxQuery: after.MaxQuery,
+		Seconds: after.Seconds - before.Seconds, MaxQuery: after.MaxQuery, Fallbacks: after.Fallbacks - before.Fallbacks,
 	}
 	rep.SchedQ = i.schedQ
 	rep.Wall = time.Since(t0).Seconds()
